@@ -355,6 +355,102 @@ def plain_callee(n):
     return c
 
 
+def _scalar_value_param(t):
+    t = (t or "").strip()
+    if t.endswith("&") and t.startswith("const "):
+        t = t[:-1].strip()
+    return t in FLOAT_TYPES or t in INT_TYPES
+
+
+def helper_callee(fx, n):
+    """Fn of a call that may be summarised: a free/static function, or a member function called on `this`,
+    that is part of the fact base and takes at least one floating argument."""
+    k = n.get("k")
+    if k == "CXXMemberCallExpr":
+        obj = F.call_object(n)
+        if obj is None or obj.get("k") != "CXXThisExpr":
+            return None
+    elif k != "CallExpr":
+        return None
+    fn = fx.functions.get(n.get("calleeKey") or "")
+    if fn is None:
+        return None
+    if not any((p.get("t") or "").replace("const ", "").replace("&", "").strip() in FLOAT_TYPES
+               for p in fn.params):
+        return None
+    return fn
+
+
+def return_stmts(fn):
+    out = []
+
+    def rec(n):
+        if n is None or n.get("k") == "LambdaExpr":
+            return
+        if n.get("k") == "ReturnStmt" and n.get("c"):
+            out.append(n)
+        for ch in F.children(n):
+            rec(ch)
+    rec(fn.body)
+    return out
+
+
+_SUMM = {}
+
+
+def not_summarisable(fx, fn, stack=()):
+    """None if fn's result is a pure function of its by-value parameters that the engines can inline;
+    else the reason."""
+    if fn.key in stack:
+        return "%s is recursive" % fn.short
+    ck = (id(fn), fn.key)
+    if ck in _SUMM and _SUMM[ck][0] is fn:
+        return _SUMM[ck][1]
+    why = None
+    if fn.body is None:
+        why = "%s has no body in the analysed sources" % fn.short
+    elif not all(_scalar_value_param(p.get("t")) for p in fn.params):
+        why = "%s takes a parameter that is not a scalar passed by value" % fn.short
+    elif not return_stmts(fn):
+        why = "%s returns no value" % fn.short
+    else:
+        for n in fn.walk():
+            k = n.get("k")
+            c = n.get("c") or []
+            if (k == "BinaryOperator" and n.get("op") == "=") or k == "CompoundAssignOperator" or \
+                    (k == "UnaryOperator" and n.get("op") in ("++", "--")):
+                if c and not _is_local_ref(c[0]):
+                    why = "%s writes to something that is not a local (%s)" % (fn.short, F.expr_text(c[0]))
+                    break
+            elif k in ("CallExpr", "CXXMemberCallExpr"):
+                cal = helper_callee(fx, n)
+                if cal is not None:
+                    w2 = not_summarisable(fx, cal, stack + (fn.key,))
+                    if w2:
+                        why = w2
+                        break
+            elif k in ("CXXNewExpr", "CXXDeleteExpr", "CXXThrowExpr", "GotoStmt"):
+                why = "%s contains %s" % (fn.short, k)
+                break
+    _SUMM[ck] = (fn, why)
+    return why
+
+
+def failed_events(trace, start=0, structural_only=False):
+    """Reasons of the unmodelled helper idioms met since trace position `start`: in-place updates through
+    reference parameters and calls that could not be summarised (structural_only: ignore helpers that are
+    summarisable but whose return statements differ - ranges can still be joined)."""
+    out = []
+    for kind, node, cal, ok, why in trace[start:]:
+        if ok:
+            continue
+        if structural_only and kind == "call" and why.startswith("its return statements"):
+            continue
+        if why not in out:
+            out.append(why)
+    return out
+
+
 class Sym:
     """Symbolic view of one function activation (env binds parameters to caller expressions)."""
 
@@ -367,11 +463,40 @@ class Sym:
         self._depth = 0
         self.parent = None            # Sym of the caller activation (inlined helpers)
         self.callsite = None          # call node in the caller
+        self.trace = []               # helper calls / in-out arguments met while evaluating (shared with children)
+        self.stack = (fn.key,)        # activation chain (recursion guard)
 
     def child(self, fn, env, callsite=None):
         c = Sym(self.fx, fn, env, self.modwrap)
         c.parent, c.callsite = self, callsite
+        c.trace = self.trace
+        c.stack = self.stack + (fn.key,)
         return c
+
+    def inline_call(self, n):
+        """Polynomial of a call to a helper of the fact base (free/static function or member called on
+        `this`) whose result is a pure function of its arguments: the callee's return expression with the
+        parameters bound to the arguments.  None if n is no such call; failures are recorded in trace."""
+        cal = helper_callee(self.fx, n)
+        if cal is None:
+            return None
+        why = not_summarisable(self.fx, cal, self.stack)
+        if why is None:
+            env = {}
+            for p, a in zip(cal.params, call_args(n)):
+                if "decl" in p:
+                    env[p["decl"]] = (a, self)
+            ch = self.child(cal, env, n)
+            polys = {}
+            for r in return_stmts(cal):
+                pr = ch.poly(r["c"][0])
+                polys[str(pr)] = pr
+            if len(polys) == 1:
+                self.trace.append(("call", n, cal, True, ""))
+                return list(polys.values())[0]
+            why = "its return statements yield %d different expressions" % len(polys)
+        self.trace.append(("call", n, cal, False, why))
+        return None
 
     # -- resolution of a local/param use to the expression that defines it
     def _wrap_adjust_source(self, did):
@@ -430,6 +555,9 @@ class Sym:
                 rs = frozenset(base)
         if len(rs) == 1:
             (did,) = rs
+            if self.rd.defs[did][1] == "param" and decl in self.env:
+                node, sym = self.env[decl]
+                return ("expr", node, sym)
             return ("def", did)
         return ("opaque", "%s@%s" % (ref.get("name"), ",".join(sorted(str(d[0]) for d in rs))))
 
@@ -502,6 +630,7 @@ class Sym:
                         if op == "/=" and (node.get("t") or "") not in INT_TYPES:
                             return a.div(b)
                     if kind == "out":
+                        self._note_inout(n, node, extra)
                         return Poly.atom(self._out_text(node, extra))
                     return Poly.atom("%s@%s" % (n["ref"].get("name"), r[1][0]))
                 return Poly.atom(r[1])
@@ -512,7 +641,28 @@ class Sym:
                 if g is not None and g.get("init") is not None and (g.get("t") or "").startswith("const"):
                     return Sym(self.fx, self.fn).poly(g["init"])
                 return Poly.atom(n["ref"].get("qn") or n["ref"].get("name"))
+        if k in ("CallExpr", "CXXMemberCallExpr"):
+            p = self.inline_call(n)
+            if p is not None:
+                return p
         return Poly.atom(self.ctext(n))
+
+    def _note_inout(self, use, call, idx):
+        """`helper(a)` with a mutable reference parameter where a already had a value: the callee
+        transforms the variable in place - not modelled."""
+        cal = self.fx.functions.get(call.get("calleeKey") or "")
+        if cal is None or cal.body is None:
+            return
+        args = call_args(call)
+        if call.get("k") == "CXXOperatorCallExpr" and call.get("memberOp"):
+            args = args[1:]
+        if idx >= len(args) or not _is_local_ref(args[idx]):
+            return
+        prev = self.rd.at.get(args[idx]["id"]) or frozenset()
+        if any(self.rd.defs[d][1] != "uninit" for d in prev):
+            self.trace.append(("inout", call, cal, False,
+                               "%s updates its argument %s in place through a reference parameter"
+                               % (cal.short, use["ref"].get("name"))))
 
     def _out_text(self, call, idx):
         args = call_args(call)
@@ -1256,7 +1406,9 @@ class Slot:
     def __init__(self, hm, pair):
         isym, inode = hm.closures[pair[0]]
         csym, cnode = hm.closures[pair[1]]
+        mark = len(csym.trace)
         self.coeff = csym.poly(cnode)
+        self.unmodelled = failed_events(csym.trace, mark)
         self.coeff_node, self.coeff_fn = cnode, csym.fn
         s2, n2 = resolve_expr(isym, inode)
         self.index_text = s2.ctext(n2)
@@ -1330,6 +1482,10 @@ def rule_lin(ctx):
                 ctx.ok(rule, "LocalLinearization:%s:L1-sum-%s" % (tn, ax), fn.where(), fn.short, detail=info)
             else:
                 tot, pts, sl = bad
+                evs = [e for s_ in sl if s_.kind == ax for e in s_.unmodelled]
+                if evs:
+                    raise AnalysisBroken("R-LIN L1: %s: a coefficient passes through a helper that is not "
+                                         "modelled (%s)" % (tn, "; ".join(sorted(set(evs)))))
                 where = fn.where()
                 for s in sl:
                     if s.kind == ax:
@@ -1365,8 +1521,11 @@ class Intervals:
     for wrap loops (`while (v > C) v -= K`, `while (v < C) v += K`) and range facts for
     fmod/remainder.  Used to bound the value assigned to the right-hand side."""
 
-    def __init__(self, sym):
+    def __init__(self, sym, init=None, depth=0):
         self.sym = sym
+        self.init = dict(init or {})   # parameter decl -> interval (inlined helper activations)
+        self.depth = depth
+        self._calls = {}
         self.fn = sym.fn
         self.cfg = self.fn.cfg
         self.nodes = self.fn.nodes
@@ -1429,9 +1588,42 @@ class Intervals:
                 if K is not None and K != 0:
                     h = abs(K) * WRAP_CALLS[plain_callee(n)]
                     return (-h, h)
+        if k in ("CallExpr", "CXXMemberCallExpr"):
+            r = self.call_range(n, st)
+            if r is not None:
+                return r
         if k == "ConditionalOperator" and len(c) == 3:
             return _join(self.eval(c[1], st), self.eval(c[2], st))
         return TOPI
+
+    def call_range(self, n, st):
+        """Range of the result of a summarisable helper: the callee's CFG is analysed with the parameters
+        bound to the ranges of the arguments; the result is the join over its return statements."""
+        cal = helper_callee(self.sym.fx, n)
+        if cal is None or self.depth > 8 or not_summarisable(self.sym.fx, cal, self.sym.stack) is not None:
+            return None
+        args = call_args(n)
+        init = {}
+        env = {}
+        for p, a in zip(cal.params, args):
+            if "decl" in p:
+                iv = self.eval(a, st)
+                if iv != TOPI:
+                    init[p["decl"]] = iv
+                env[p["decl"]] = (a, self.sym)
+        ck = (n["id"], tuple(sorted(init.items())))
+        if ck in self._calls:
+            return self._calls[ck]
+        sub = Intervals(self.sym.child(cal, env, n), init, self.depth + 1)
+        res = None
+        for r in return_stmts(cal):
+            stb = sub.before.get(r["id"])
+            v = TOPI if stb is None else sub.eval(r["c"][0], stb)
+            res = v if res is None else _join(res, v)
+        if res is None:
+            res = TOPI
+        self._calls[ck] = res
+        return res
 
     def _refine(self, cond, st, truth):
         """State on the true/false edge of a condition `v cmp C` (other conditions: unchanged)."""
@@ -1471,7 +1663,7 @@ class Intervals:
         for (elk, decl), rec in self.rd.defs.items():
             by_el.setdefault(elk, []).append(rec)
         IN = {b: None for b in cfg.blocks}
-        IN[cfg.entry] = {}
+        IN[cfg.entry] = dict(self.init)
         visits = {b: 0 for b in cfg.blocks}
         work = [cfg.entry]
         while work:
@@ -1654,6 +1846,7 @@ def residual_combinations(fx, rec, fn, sym, out, stack=()):
         k = n.get("k")
         t = n.get("t") or ""
         p = None
+        mark = len(sym.trace)
         if k == "CompoundAssignOperator" and n.get("op") in ("+=", "-=") and t in FLOAT_TYPES:
             a, b = sym.poly(n["c"][0]), sym.poly(n["c"][1])
             p = a + b if n["op"] == "+=" else a - b
@@ -1667,6 +1860,10 @@ def residual_combinations(fx, rec, fn, sym, out, stack=()):
                 continue            # plain store target
             p = sym.poly(n)
         if p is not None:
+            evs = failed_events(sym.trace, mark)
+            if evs and any(is_value_atom(a) or is_residual_atom(a) for a in p.atoms()):
+                raise AnalysisBroken("R-UNIT U1: %s combines obs->value()/a residual through a helper that is "
+                                     "not modelled (%s)" % (fn.short, "; ".join(evs)))
             vals, ress = [], []
             for const, sign, rest in monomials(p):
                 if len(rest) == 1 and rest[0][1] == 1:
@@ -1743,8 +1940,13 @@ def rule_unit(ctx):
             msgs = []
             where = fn.where()
             for sym, g, n in hw.rhs_sites:
+                mark = len(sym.trace)
                 m = check_rhs_scale(sym.poly(n["c"][1]), ang)
                 if m:
+                    evs = failed_events(sym.trace, mark)
+                    if evs:
+                        raise AnalysisBroken("R-UNIT U1: %s: the right-hand side passes through a helper "
+                                             "that is not modelled (%s)" % (tn, "; ".join(evs)))
                     msgs.append(m)
                     where = g.where(n)
             ctx.report(rule, "LocalLinearization:%s:U1-rhs-scale" % tn, not msgs, where, fn.short,
@@ -1761,6 +1963,9 @@ def rule_unit(ctx):
                 nslots += 1
                 exp = cdiv(obs_scale(ang), unknown_scale(s.kind))
                 for const, sign, rest in monomials(s.coeff):
+                    if const != exp and s.unmodelled:
+                        raise AnalysisBroken("R-UNIT U1: %s: a coefficient passes through a helper that is "
+                                             "not modelled (%s)" % (tn, "; ".join(s.unmodelled)))
                     if const != exp:
                         msgs.append("coefficient of the %s unknown carries the factor %s, expected %s "
                                     "(%s per %s)" % (s.kind, const_name(*const), const_name(*exp), unitname,
@@ -1804,7 +2009,7 @@ def rule_unit(ctx):
             ctx.report(rule, "%s::visit(%s):U1-residual-scale" % (short(q), M.tname(t)), not msgs, where,
                        fn.short, msg="; ".join(sorted(set(msgs))),
                        detail={"combinations": len(out["combos"]), "angular": ang})
-    ctx.floor(rule, 50, n_sib, "visit(T*) methods combining obs->value() with a residual element")
+    ctx.floor(rule, 42, n_sib, "visit(T*) methods combining obs->value() with a residual element")
     ctx.floor(rule, 4, len(sib_classes), "sibling visitor classes")
 
 
@@ -1908,6 +2113,12 @@ def rule_wrap_w1(ctx):
         for sym, g, n in hm.rhs_sites:
             lo, hi = _interval_of(sym, n, n["c"][1], cache)
             if lo < -half * (1 + 1e-9) or hi > half * (1 + 1e-9):
+                mark = len(sym.trace)
+                sym.poly(n["c"][1])
+                evs = failed_events(sym.trace, mark, structural_only=True)
+                if evs:
+                    raise AnalysisBroken("R-WRAP W1: %s: the right-hand side passes through a helper that is "
+                                         "not modelled (%s)" % (tn, "; ".join(evs)))
                 worst = (lo, hi)
                 where = g.where(n)
         ok = worst is None
